@@ -21,32 +21,6 @@ var (
 	errZZStage                             = errors.New("zz: stage failed")
 )
 
-func zzModelReadFile(name string) ([]byte, error) {
-	if zzFailRead {
-		return nil, errZZStage
-	}
-	return []byte("version: 1.0.3"), nil
-}
-
-func zzModelUnmarshal(in []byte, out interface{}) error {
-	if zzFailYaml {
-		return errZZStage
-	}
-	c := out.(*Config)
-	c.Version = "1.0.3"
-	c.Pfcp = &Pfcp{Addr: "127.0.0.8", NodeID: zzNodeID, RetransTimeout: 3 * time.Second, MaxRetrans: zzRetrans}
-	c.Gtpu = &Gtpu{Forwarder: "gtp5g", IfList: []IfInfo{{Addr: "127.0.0.8", Type: "N3"}}}
-	c.Logger = &Logger{Level: "info"}
-	return nil
-}
-
-func zzModelValidateStruct(s interface{}) (bool, error) {
-	if zzFailValidate {
-		return false, errZZStage
-	}
-	return true, nil
-}
-
 func ZZ_C20_ReadConfig() {
 	govalidator.TagMap = map[string]govalidator.Validator{}
 	zzFailRead = nondetBool("read-fails")
